@@ -11,7 +11,7 @@ use serde::Deserialize;
 use serde_json::{json, Value};
 
 use crate::obs::{self, Recorder};
-use crate::replay::{applicable, command_of, PathResult, Step};
+use crate::replay::{applicable, command_of, PathResult, Step, LOCK_SITES};
 use crate::world::*;
 
 #[derive(Clone, Debug, Deserialize)]
@@ -115,6 +115,8 @@ struct Driver<'a> {
     mode: Vec<(String, String, String)>,
     created: usize,
     ticked: Vec<bool>,
+    /// the task that was sent ahead (it waits for the slots mutex another task holds) and the step it is in
+    ahead: Option<(usize, Step)>,
 }
 
 impl Driver<'_> {
@@ -124,6 +126,18 @@ impl Driver<'_> {
         let st = |a: &str, t: &str, x: Vec<Value>| Step { a: a.into(), t: t.into(), x, post: None };
         let closed = w.pool().map(|p| p.is_closed()).unwrap_or(true);
         for (t, name) in w.cfg.tasks.iter().enumerate() {
+            if w.early[t] {
+                // waiting for the slots mutex (or just through it): nothing to choose
+                continue;
+            }
+            if let TState::AtPoint(site) = &w.ts[t] {
+                // in front of a critical section while another task holds the mutex: it may be sent ahead, so that
+                // it really waits there (one at a time; not retain(), whose view of the queue is recorded at its lock)
+                if self.ahead.is_none() && LOCK_SITES.contains(site) && *site != "m.retain.lock" && w.lock_held() {
+                    out.push((t, st("__ahead", name, vec![]), 5));
+                    continue;
+                }
+            }
             match &w.ts[t] {
                 TState::Idle => {
                     if w.pool().is_some() && self.ops_left > 0 {
@@ -217,7 +231,7 @@ impl Driver<'_> {
         if self.rc.allow_drop_pool && w.pool().is_some() && w.ts.iter().all(|s| *s == TState::Idle) && self.ops_left == 0 {
             out.push((usize::MAX, st("DropPool", "", vec![]), 1));
         }
-        out.retain(|(t, s, _)| *t == usize::MAX || command_of(s).map(|c| applicable(w, *t, &c)).unwrap_or(false));
+        out.retain(|(t, s, _)| *t == usize::MAX || s.a == "__ahead" || command_of(s).map(|c| applicable(w, *t, &c)).unwrap_or(false));
         out
     }
 }
@@ -242,7 +256,7 @@ fn trace_event(run: u64, seq: usize, w: &World, t: Option<usize>, st: &Step) -> 
         "permits": s.permits, "closed": s.closed, "users": s.users, "slots": s.slots.is_some() || s.pool_gone,
         "size": size, "creating": creating, "max": max, "idle": idle,
         "at": at, "susp": susp, "held": held, "alive": w.truth().alive(),
-        "done": done && t.is_some() && !s.pool_gone, "result": result, "gone": s.pool_gone,
+        "done": done && t.is_some() && !s.pool_gone, "result": result, "gone": s.pool_gone, "blind": false,
     })
 }
 
@@ -262,7 +276,7 @@ pub fn run(args: &[String]) {
         let mut rec = Recorder::new(of.is_some());
         rec.begin(run, &w);
         let n = w.cfg.tasks.len();
-        let mut d = Driver { rc: &rc, rng: StdRng::seed_from_u64(seed.wrapping_mul(1_000_003).wrapping_add(run)), ops_left: rc.ops, mode: vec![("bl".into(), "none".into(), "none".into()); n], created: 0, ticked: vec![false; n] };
+        let mut d = Driver { rc: &rc, rng: StdRng::seed_from_u64(seed.wrapping_mul(1_000_003).wrapping_add(run)), ops_left: rc.ops, mode: vec![("bl".into(), "none".into(), "none".into()); n], created: 0, ticked: vec![false; n], ahead: None };
         // PCT-style priorities: a task keeps the processor until a change point
         let mut prio: Vec<u32> = (0..n as u32).collect();
         prio.shuffle(&mut d.rng);
@@ -285,6 +299,15 @@ pub fn run(args: &[String]) {
                 ch.choose_weighted(&mut d.rng, |x| x.2).unwrap().clone()
             };
             let (t, st, _) = pick;
+            if st.a == "__ahead" {
+                // no event: nothing observable happens, the task blocks in lock()
+                if let TState::AtPoint(site) = w.ts[t] {
+                    let act = Step { a: action_of_site(site).into(), t: st.t.clone(), x: vec![], post: None };
+                    w.preissue(t);
+                    d.ahead = Some((t, act));
+                }
+                continue;
+            }
             seq += 1;
             if t == usize::MAX {
                 w.drop_pool();
@@ -310,8 +333,30 @@ pub fn run(args: &[String]) {
             }
             let before = w.ts[t].clone();
             w.send(t, command_of(&st).unwrap());
-            rec.step(&w, Some(t), &st, Some(&before));
-            writeln!(tf, "{}", trace_event(run, seq, &w, Some(t), &st)).unwrap();
+            // did this step let go of the mutex the task sent ahead is waiting for?  (a holder is parked
+            // inside retain()'s predicate or inside resize()'s loop)
+            let still_held = w.ts.iter().any(|s| {
+                matches!(s, TState::AtPoint("m.resize.forget") | TState::AtPoint("m.resize.grow") | TState::AtCall { kind: CallKind::Pred, .. })
+            });
+            if let (Some((t2, st2)), false) = (d.ahead.clone(), still_held) {
+                d.ahead = None;
+                // the waiting task goes through at once: the state between the two steps cannot be looked at
+                w.await_early(t2);
+                rec.step(&w, Some(t), &st, Some(&before));
+                let mut ev = trace_event(run, seq, &w, Some(t), &st);
+                ev["blind"] = json!(true);
+                writeln!(tf, "{}", ev).unwrap();
+                if !w.hung {
+                    seq += 1;
+                    let before2 = w.ts[t2].clone();
+                    w.send(t2, Cmd::Go(None));
+                    rec.step(&w, Some(t2), &st2, Some(&before2));
+                    writeln!(tf, "{}", trace_event(run, seq, &w, Some(t2), &st2)).unwrap();
+                }
+            } else {
+                rec.step(&w, Some(t), &st, Some(&before));
+                writeln!(tf, "{}", trace_event(run, seq, &w, Some(t), &st)).unwrap();
+            }
             if w.hung {
                 hung += 1;
                 break;
